@@ -4,6 +4,7 @@ import (
 	"fmt"
 	"sort"
 	"strings"
+	"sync/atomic"
 
 	"go.amzn.com/lambda/interop"
 )
@@ -12,6 +13,7 @@ import (
 type RecEvents struct {
 	L     *Log
 	Alias func(string) string
+	cur   atomic.Value // string: the request id events are attributed to (SetCurrentRequestID)
 }
 
 func strp(p *string) string {
@@ -21,7 +23,13 @@ func strp(p *string) string {
 	return *p
 }
 
-func (r *RecEvents) SetCurrentRequestID(interop.RequestID) {}
+func (r *RecEvents) SetCurrentRequestID(id interop.RequestID) { r.cur.Store(string(id)) }
+func (r *RecEvents) current() string {
+	if v, ok := r.cur.Load().(string); ok && v != "" {
+		return r.Alias(v)
+	}
+	return "none"
+}
 func (r *RecEvents) SendInitStart(d interop.InitStartData) error {
 	r.L.Add("ev initStart:%s", d.Phase)
 	return nil
@@ -43,6 +51,8 @@ func (r *RecEvents) SendInvokeStart(d interop.InvokeStartData) error {
 	return nil
 }
 func (r *RecEvents) SendInvokeRuntimeDone(d interop.InvokeRuntimeDoneData) error {
+	// as the telemetry API does, the event goes out under the current request id (a side line: not compared with the model)
+	r.L.Add("#evreq invokeRuntimeDone %s", r.current())
 	r.L.Add("ev invokeRuntimeDone:%s:%s", d.Status, strp(d.ErrorType))
 	return nil
 }
